@@ -5,7 +5,6 @@ import functools
 import itertools
 import json
 import os
-import re
 import signal
 
 import fw
@@ -33,7 +32,7 @@ ASSUMPTIONS = [
     'numbers in generated programs are exactly representable, so the rational arithmetic of the Lean host equals float arithmetic',
     'immutability of the Python model dicts and run-to-run determinism are properties of the implementation only (in Lean a model is '
     'an immutable value and execute is a function): checked by deep-copy/compare and by executing every model twice',
-    'negative zero is not modelled by the rational host: "-0" in log lines is compared as "0" (number text is C12/C13); values '
+    'negative zero is not modelled by the rational host: "-0" in log lines and in strings built from numbers is compared as "0" (number text is C12/C13); values '
     'that contain themselves (F18) are not compared',
     'Python recursion limit is not modelled: generated models have no unbounded recursion (DESIGN section 6)',
 ]
@@ -891,7 +890,7 @@ def random_model(rng):
                 del site['function']['args'][-1]
             tags.append('drop-arg')
     # every assigned value is modified in place right after the assignment
-    if rng.random() < 0.5:
+    if rng.random() < 0.4:
         model = poke_model(model)
         tags.append('poke')
     # hand-built: keep at most 40 top-level statements (cutting a lowered program leaves dangling jumps: wanted)
@@ -916,14 +915,10 @@ def load_corpus():
 # streams
 # ---------------------------------------------------------------------------------------------------------------------
 
-NEG_ZERO = re.compile(r'(?<![\d.])-0(?![\d.])')
-
-
 def no_neg_zero(out):
-    """The rational host of the Lean model has no negative zero; float -0.0 prints as "-0" (number text is C12/C13)."""
-    res = dict(out)
-    res['log'] = [NEG_ZERO.sub('0', line) for line in out.get('log', [])]
-    return res
+    """The rational host of the Lean model has no negative zero; float -0.0 prints as "-0" (number text is C12/C13) - in log
+    lines and in every string value built from a number (result, globals)."""
+    return progen.canon_neg_zero(out)
 
 
 def report(ctx, oracle_bad, input_):
@@ -1014,7 +1009,7 @@ def stream_random(ctx, n, driver=True, name='exec-random'):
     st = ctx.stream(name,
                     'corpus + random models <= 40 top-level statements: progen.Gen programs with raw labels/jumps, parsed, then hand-built '
                     'mutations (duplicate labels, labels dropped, dangling jumps, jumps to labels of other lists, stray returns, cut at 40; '
-                    '40%: trailing arguments dropped from calls of script functions; 50%: every assignment followed by an in-place '
+                    '40%: trailing arguments dropped from calls of script functions; 40%: every assignment followed by an in-place '
                     'arrayPush/objectSet on the assigned value), validated; x initial globals of all value kinds; maxStatements=300; same comparison and oracles; non-trivial = one '
                     'list of the model has a jump and a label statement')
     saved_driver = ctx.driver
@@ -1141,7 +1136,7 @@ def streams(ctx):
     try:
         stream_directed(ctx)
         stream_exhaustive(ctx)
-        stream_random(ctx, ctx.scale(600, 20000))
+        stream_random(ctx, ctx.scale(600, 16000))
     finally:
         order_witnesses(ctx)
 
